@@ -54,7 +54,7 @@ def oracle_barrier(run):
 
 def register(PROPS, COMPONENTS):
     COMPONENTS["barrier"] = dict(client="barrier", driver="barrier", tap=True, directed_runs=8, quick_runs=600,
-                                 thorough_runs=30000, oracle=oracle_barrier)
+                                 thorough_runs=30000, oracle=oracle_barrier, cov_headers=["gmlc/concurrency/Barrier.hpp"])
     PROPS["C09"] = dict(
         lean_files=["ConcVerif/Props/C09.lean"], components=["barrier"], stage="B",
         level_text="Lean 4 theorems (kernel-checked; any number of participants, generations, interleavings, any subset dropping "
